@@ -32,8 +32,11 @@ def shapeJson (cs : List Core) : Json :=
 def valsJson (l : List Field) : Json :=
   if l.isEmpty then .null else ofNats (l.reverse.map (·.val))
 
+/-- the layer whose definition of `p` a read from the top sees: the top-most core defining it -/
 def layerOf (cs : List Core) (p : Nat) : Option Nat :=
-  cs.findIdx? (fun c => match c with | .oop fs => (lookup fs p).isSome | _ => false)
+  match cs.reverse.findIdx? (fun c => match c with | .oop fs => (lookup fs p).isSome | _ => false) with
+  | some i => some (cs.length - 1 - i)
+  | none => none
 
 def handle (op : String) (j : Json) : Option Json :=
   match op with
@@ -67,11 +70,31 @@ def handle (op : String) (j : Json) : Option Json :=
           obj [
             ("has", .arr (names.map (fun x => toJson (specHas t' x))).toArray),
             ("get", .arr (names.map (fun x => valsJson (specGet t' x))).toArray)])
+      -- `q+:: [probe]` chain: one probe result per contributing layer, deepest first, each taken
+      -- with that layer's own `super`
+      let chainM : Json := match optNat j "chain" with
+        | none => Json.null
+        | some q =>
+          let contrib := (getIdx cs n q).reverse
+          if contrib.isEmpty then Json.null else
+          .arr (contrib.map (fun (_, l) => obj [
+            ("has", .arr (names.map (fun x => toJson (hasIdx cs l x))).toArray),
+            ("get", .arr (names.map (fun x => valsJson ((getIdx cs l x).map (·.1)))).toArray)])).toArray
+      let chainS : Json := match optNat j "chain" with
+        | none => Json.null
+        | some q =>
+          let contrib := (getIdx cs n q).reverse
+          if contrib.isEmpty then Json.null else
+          .arr (contrib.map (fun (_, l) =>
+            let t' := takeTerm t l
+            obj [
+              ("has", .arr (names.map (fun x => toJson (specHas t' x))).toArray),
+              ("get", .arr (names.map (fun x => valsJson (specGet t' x))).toArray)])).toArray
       some (obj [
         ("model", obj [("fields", ofNats (fieldsEx cs false)), ("fieldsAll", ofNats (fieldsEx cs true)),
-                       ("per", .arr mPer.toArray), ("probes", .arr mProbes.toArray)]),
+                       ("per", .arr mPer.toArray), ("probes", .arr mProbes.toArray), ("chain", chainM)]),
         ("spec", obj [("fields", ofNats (specFields t false)), ("fieldsAll", ofNats (specFields t true)),
-                      ("per", .arr sPer.toArray), ("probes", .arr sProbes.toArray)])])
+                      ("per", .arr sPer.toArray), ("probes", .arr sProbes.toArray), ("chain", chainS)])])
   | _ => none
 
 end JrsVerif.Drv.C02
